@@ -463,7 +463,13 @@ PROPS = {
                       'treadmill.services.presence_service:PresenceResourceService.on_create_request',
                       'treadmill.services.presence_service:PresenceResourceService.on_delete_request'],
         'replay': 'c17.py',
+        'extra': [('bounded:request-sequences-and-interleavings', bounded_replay('c17.py', 'C17', 'PresenceResourceService requests of two sessions; one create request with the other session acting between its ZooKeeper operations', 1500, 30000))],
         'assumptions': [
+            'BOUNDED stand-in (labelled bounded): replay/c17.py (a) random request sequences of two sessions on a shared fake '
+            'ZooKeeper, (b) EXHAUSTIVELY over a small space, one create request of session A while session B - holding the '
+            'running node - removes it (clean-up or expiry) and registers the next container before the i-th / j-th ZooKeeper '
+            'operation of A (all i <= j < 7): A must never set or delete a node owned, at that moment, by another session. '
+            'This is the part of the schedules quantifier the request-granular proof does not reach',
             'every clause is proved for an arbitrary ZooKeeper store at the start of one request, so any interleaving of '
             'whole requests of two sessions (and expiry between requests) is covered; INSIDE a request the environment '
             'is modelled as: before every ZooKeeper call any node may go away (its owner deleted it, its session expired) '
@@ -544,7 +550,8 @@ PROPS = {
         'contract_modules': ['c19_allocation_api'],
         'functions': ['treadmill.api.allocation:_check_limit', 'treadmill.api.allocation:_calc_free',
                       'treadmill.api.allocation:_calc_free_traits', 'treadmill.api.allocation:_check_capacity',
-                      'treadmill.api.allocation:API._ReservationAPI.update'],
+                      'treadmill.api.allocation:API._ReservationAPI.update',
+                      'treadmill.api.allocation:API._ReservationAPI.create'],
         'replay': 'c19.py',
         'assumptions': [
             'admin (LDAP) layer returns schema-valid reservation and partition records; multi-valued LDAP '
@@ -553,8 +560,8 @@ PROPS = {
             '(their own contracts are discharged under C01 units, assumed here)',
             'reservation update (closure API._ReservationAPI.update) is under contract: the directory write '
             '(AdminCellAlloc.update) is reached only in a state where fits_all holds for the request (call-site clause); '
-            'reservation create is NOT under contract (its plugin loop rebinds the request): that it calls _check_capacity '
-            'before writing is read off the source only',
+            'reservation create likewise (AdminCellAlloc.create; the clause speaks about the request as it was checked, API '
+            'plugins - assumed to touch nothing but the object they return - may add attributes afterwards)',
             'the directory content is read once per request (no concurrent writer between check and write)',
         ],
         'trusted': ['json-schema validation of requests (source of valid_cpu/valid_size preconditions)'],
